@@ -2,6 +2,8 @@ package gensim
 
 import (
 	"fmt"
+	"go/parser"
+	"go/token"
 	"math/rand/v2"
 	"regexp"
 	"sort"
@@ -94,6 +96,22 @@ func produced(o *Obs) map[string]string {
 
 func faultFree(g *GenSpec) bool { return len(g.Plan.Faults) == 0 }
 
+// lacksPackageClause: some prior output keeps its two header lines (so the go tool must
+// ignore it under the run's tags) but has no parsable package clause. This is the specific
+// state of known finding F9: the go command's module index reports such a file as an error
+// although it is excluded by its build constraint.
+func lacksPackageClause(o *Obs, tags string) bool {
+	for p, c := range o.PriorOutputs {
+		if !strings.HasSuffix(p, ".go") || !headerIntact(c, tags) {
+			continue
+		}
+		if _, err := parser.ParseFile(token.NewFileSet(), p, c, parser.PackageClauseOnly); err != nil {
+			return true
+		}
+	}
+	return false
+}
+
 func firstDiff(a, b string) string {
 	la, lb := strings.Split(a, "\n"), strings.Split(b, "\n")
 	for i := 0; i < len(la) || i < len(lb); i++ {
@@ -146,6 +164,11 @@ func JudgeC09(c *Ctx, h *History, obs []*Obs) ([]Violation, error) {
 		if err != nil {
 			return nil, err
 		}
+		sfx := ""
+		if lacksPackageClause(o, tags) {
+			sfx = "/stale-output-without-package-clause"
+			c.Stats.Add("c09.gens_over_output_without_package_clause", 1)
+		}
 		c.Stats.Add("c09.compared_gens", 1)
 		if ref.Exit == 0 {
 			c.Stats.Add("c09.compared_ok", 1)
@@ -153,7 +176,7 @@ func JudgeC09(c *Ctx, h *History, obs []*Obs) ([]Violation, error) {
 			c.Stats.Add("c09.compared_failing", 1)
 		}
 		if o.Exit != ref.Exit {
-			out = append(out, Violation{Property: "C09", Class: "exit-differs", OpIndex: o.OpIndex,
+			out = append(out, Violation{Property: "C09", Class: "exit-differs" + sfx, OpIndex: o.OpIndex,
 				Msg: fmt.Sprintf("exit %d, clean-tree reference exit %d; stderr=%q ref=%q", o.Exit, ref.Exit, trunc(o.Stderr, 300), trunc(ref.Stderr, 300))})
 			continue
 		}
@@ -253,6 +276,9 @@ func envVariant(rng *rand.Rand, g *GenSpec, w *World) {
 	g.Patterns = patternVariants(rng, w, 1)[0]
 	g.Plan.Clock = 1_600_000_000 + int64(rng.IntN(1_000_000))
 	g.Plan.Pid = 1000 + rng.IntN(30000)
+	if rng.IntN(3) == 0 {
+		g.FileAge = "fresh"
+	}
 	if rng.IntN(2) == 0 {
 		g.Env = map[string]string{
 			"USER":     []string{"alice", "bob", "root"}[rng.IntN(3)],
